@@ -152,3 +152,41 @@ Definition check_daily (c : dcase) : bool :=
 Definition show_daily (c : dcase) :=
   let '(pol, ps, rows, variants) := c in
   map (fun v : bool * list qcell * list (Z * qcell) => daily_model pol ps rows (fst v)) variants.
+
+(* ================================================================== the data class in front of hourly predict
+   stream ds: which record of a repeated time stamp survives.  A record is (utc minutes, has a temperature, has any weather
+   reading, has a usage reading); expected: for every stamp of data.df, whether its temperature had to be gap-filled (no selected record
+   there, or the selected record carries no weather). *)
+Definition dsrec := (Z * bool * bool * bool)%type.   (* utc, temperature present, some weather cell present, usage present *)
+Definition to_rec (r : dsrec) : rec (bool * bool) unit :=
+  let '(u, te, anyw, us) := r in {| q_utc := u; q_w := (te, anyw); q_obs := if us then Some tt else None |}.
+Definition dedup_of_z (n : Z) : dedup_policy := if Z.eqb n 0 then KeepFirst else DropEmptyKeepFirst.
+Definition no_weather (w : bool * bool) : bool := negb (snd w).
+
+Definition check_ds (c : Z * list dsrec * list (Z * bool)) : bool :=
+  let '(p, recs, expected) := c in
+  let sel := select no_weather (dedup_of_z p) (map to_rec recs) in
+  forallb (fun e : Z * bool =>
+             Bool.eqb (match find_rec sel (fst e) with Some r => negb (fst (q_w r)) | None => true end) (snd e)) expected.
+
+(* instances for the witnesses of Properties/C05.v: one local date of 24 stamps, weather = a temperature or nothing,
+   gap filling by 0, and oracles under which the prediction of an hour IS its (filled) temperature *)
+Definition one_day_calendar (_ : list Z) : list (list cal_stamp * option err) :=
+  [(map (fun k => ((60 * Z.of_nat k)%Z, 6%Z, 2%Z, k)) (seq 0 24), None)].
+Definition fill_zero (l : list (option (option Z))) : list Z :=
+  map (fun o => match o with Some (Some z) => z | _ => 0%Z end) l.
+Definition temp_empty (w : option Z) : bool := match w with None => true | Some _ => false end.
+Definition weather_oracles : oracles Z unit Z unit Z :=
+  {| repair_by_obs := fun ct _ => Ok (fill0 ct);
+     repair_by_calendar := calendar_fill;
+     ts_feat := fun w _ => w;
+     cat_feat := fun _ _ => tt;
+     regress := fun X => concat (map fst X);
+     mean2F := fun a b => ((a + b) / 2)%Z;
+     mean2Y := fun a b => ((a + b) / 2)%Z |}.
+Definition witness_stage (p : dedup_policy) (recs : list (rec (option Z) unit)) : frame Z unit :=
+  data_stage temp_empty one_day_calendar fill_zero (fun l => l) p recs.
+(* stamp 0 occurs twice: a meter record (usage, no temperature) then a weather record (70 degrees, no usage) *)
+Definition witness_recs (usage : option unit) : list (rec (option Z) unit) :=
+  {| q_utc := 0; q_w := None; q_obs := usage |} :: {| q_utc := 0; q_w := Some 70%Z; q_obs := None |}
+  :: map (fun k => {| q_utc := (60 * Z.of_nat k)%Z; q_w := Some 50%Z; q_obs := usage |}) (seq 1 23).
